@@ -185,6 +185,10 @@ pub fn units(prop: &str, tier: Tier) -> Option<Vec<Unit>> {
                     .alpha(&ABCOMMA, pick(5, 6))
                     .alarm(alarm)
                     .unit(),
+                e1("k02-iter-chains", "iterable parsers used as such: a.or_not() as an iterator, and every pair of links (repeated / separated_by / or_not / into_iter) joined by IterParser::then, x 7 sinks, each followed by a rest capture".into(), en::k02_chain(!q))
+                    .alpha(&ABCOMMA, pick(5, 6))
+                    .alarm(alarm)
+                    .unit(),
                 e1("k02-separated-multibyte", "separated_by() templates on multi-byte text".into(), en::k02_sep(false)).alpha(&ABC, 4).kind(KindId::StrMb).alarm(alarm).unit(),
                 // the bounds / flags of a repetition are fields of the combinator value: they must survive its Clone
                 e1("k02-through-clone", "repeated()/separated_by() templates, every combinator value used through its own Clone impl (original dropped)".into(), {
@@ -581,6 +585,7 @@ pub fn units(prop: &str, tier: Tier) -> Option<Vec<Unit>> {
                 v.push(class(&format!("k01-{n}"), &en::k01(), pick(3, 3)).cfg(c).probes(NOPROBE).alarm(alarm).unit());
                 if n == "rich" {
                     v.push(rec_unit("leftrec", tier));
+                    v.push(e1("k02-iter-chains", "iterable parsers chained with IterParser::then (repeated / separated_by / or_not / into_iter links) x 7 sinks".into(), en::k02_chain(false)).alpha(&ABCOMMA, pick(4, 5)).probes(NOPROBE).alarm(alarm).unit());
                     v.push(Unit::Custom { name: "pull-budgets".into(), run: Box::new(move |cx| eng_inputs::run("pull-budgets", tier, cx)) });
                     v.push(Unit::Custom { name: "text-totality".into(), run: Box::new(move |cx| eng_text::run_totality("text-totality", if tier == Tier::Quick { 4 } else { 5 }, cx)) });
                 }
